@@ -258,3 +258,42 @@ def r18_6(ctx):
             ctx.bad(f"dispatch|{w['field']}|before-emit", f"dhcpv4 dispatch updates {w['field']} although the request may not have been sent", body=d, bb=w['bb'])
         else:
             ctx.ok(('dispatch', w['field'], w['bb']), sample=dict(field=w['field'], after='emit(..)?'))
+
+
+@rule('R18.5', ['C18'], floor=4, clause='an ACK received while bound replaces the whole lease: renew_at, rebind_at, expires_at are rewritten together and the rebinding flag is cleared')
+def r18_5(ctx):
+    """Typestate/exhaustiveness: the store that installs the new expiry in the Renewing arm of process() is
+    accompanied, on every path through it, by stores to the other lease-scoped fields of RenewState, and the
+    `rebinding` flag is stored as `false` (otherwise the next T1 is skipped and only broadcasts go out)."""
+    F = ctx.F
+    b = ctx.method(D, 'process')
+    def stores(field):
+        return [w for w in F.field_writes() if w['fn'] == b.key and w['kind'] == 'store' and w['adt'] == RS and w['field'] == field]
+    ex = stores('expires_at')
+    ctx.need(len(ex) >= 1, "store to RenewState.expires_at in dhcpv4 process()")
+    rets = b.return_blocks()
+    for e in ex:
+        for fld in ('renew_at', 'rebind_at', 'rebinding'):
+            ws = stores(fld)
+            okf = False
+            for w in ws:
+                if w['bb'] == e['bb']:
+                    okf = True
+                    break
+                pre = b.reachable(cut_blocks={w['bb']})
+                post = b.reachable(start=e['bb'], cut_blocks={w['bb']})
+                if e['bb'] not in pre or not any(r in post for r in rets):
+                    okf = True
+                    break
+            if not okf:
+                ctx.bad(f"process|renewing-ack|{fld}", f"a new lease is installed (expires_at stored) without updating RenewState.{fld}: "
+                        + ("the client stays in rebinding mode and skips the next renewal" if fld == 'rebinding' else "stale timer from the previous lease"),
+                        body=b, bb=e['bb'])
+            else:
+                ctx.ok(('renewing-ack', fld), sample=dict(arm='(Renewing, Ack)', field=fld))
+    for w in stores('rebinding'):
+        o = simplify(store_origin(F, b, w))
+        if const_int(o) == 0 or strip(o) == ('const', 'false'):
+            ctx.ok(('renewing-ack', 'rebinding=false'))
+        else:
+            ctx.bad("process|renewing-ack|rebinding-value", f"rebinding is set to {show(o)[:40]} when a new lease arrives", body=b, bb=w['bb'])
